@@ -238,6 +238,27 @@ def run_case(ctx, seed, idx, tier):
         return viol('arguments_received_differ', {'index': i, 'expected': trace[i:i + 1], 'got': log[i:i + 1],
                                                   'n_expected': len(trace), 'n_got': len(log)})
     c['trace_compared'] = 1 if log else 0
+    # the same engine, every Python predicate registered again (fresh closures, same solutions): the new
+    # registrations must be the ones that are called from now on
+    if log and rng.random() < 0.4:
+        log1, log2 = [], []
+        f0 = dict(nofault)
+        yp = mk_engine(True, f0, log1)
+        vmap = {}
+        rargs = [build_real(yp, t, vmap) for t in qargs]
+        robs = [build_real(yp, t, vmap) for t in observed]
+        g1, s1, _ = real.answers(yp.query(qname, rargs), robs, diff.MAXANS, diff.engine_bound(refa.steps))
+        for k in subset:
+            rows = [tuple(h[2]) if h[0] == 'c' else () for h in fp[k]]
+            f, ar = make_pypred(real, yp, k[0], k[1], rows, styles[k], not yvs[k], log2, f0)
+            yp.register_function(k[0], f, arity=ar) if ar is not None else yp.register_function(k[0], f)
+        g2, s2, _ = real.answers(yp.query(qname, rargs), robs, diff.MAXANS, diff.engine_bound(refa.steps))
+        if (g2, s2) != (g1, s1):
+            return viol('answers_change_after_registering_again', diff.first_diff(g1, g2))
+        n2 = min(len(trace), len(log2)) if not exp['complete'] else max(len(trace), len(log2))
+        if log2[:n2] != trace[:n2]:
+            return viol('old_registration_still_called_after_registering_again', {'expected_calls': len(trace), 'calls_to_new_functions': len(log2)})
+        c['registered_again'] = 1
     # exception identity
     total = fault['events']
     if total and rng.random() < 0.5:
